@@ -303,6 +303,14 @@ def fixed_cases():
     alone = B.Case({"x": xf}, {"y": yf}, False, {"fixed": "function-built-alone-after-a-newer-model"})
     alone.pre = ({"x": xf}, {"y": MODS[19].identity(yf)}, False)
     out.append(alone)
+    # an operator whose SIGNATURE is the same at two versions while the admissible VALUES of an attribute changed: GridSample-16
+    # (mode bilinear / bicubic) next to an opset-20 operator (GridSample-20: linear / cubic) - default and explicit modes
+    for mode in (None, "bilinear", "bicubic", "nearest"):
+        xg = B.argument(B.Tensor(np.float32, (1, 1, 4, 4)))
+        gg = B.argument(B.Tensor(np.float32, (1, 3, 3, 2)))
+        sampled = MODS[17].grid_sample(xg, gg) if mode is None else MODS[17].grid_sample(xg, gg, mode=mode)
+        out.append(B.Case({"x": xg, "grid": gg}, {"y": sampled, "z": MODS[20].gelu(sampled)}, False,
+                          {"fixed": f"same-signature-other-attribute-values/GridSample-16-mode-{mode}-next-to-opset-20"}))
     from harness import c02
     for fc in c02.converted_twice_cases():
         fc.meta["fixed"] = fc.meta["names"].replace("corner:", "")
